@@ -230,6 +230,9 @@ class MainLoop(AbstractEventLoop):
 
         if type(signal) in self._handlers: # pylint: disable=unidiomatic-typecheck
             for handler_data in self._handlers[type(signal)]:
+                if self._force_quit:
+                    break
+
                 try:
                     handler_data.callback(signal, handler_data.data)
                 except ExitMainLoop:  # pylint: disable=try-except-raise
